@@ -480,7 +480,8 @@ func (c *Collection) getDocument(id uint64) (*Document, error) {
 		return nil, err
 	}
 
-	metadata := span.DataStreams[0].Data
+	// The span's streams are windows of the file mapping; hand out a private copy.
+	metadata := append([]byte{}, span.DataStreams[0].Data...)
 	vector := decodeVector(span.DataStreams[1].Data, c.DimensionCount, c.Quantization)
 
 	return &Document{
@@ -661,7 +662,7 @@ func (c *Collection) Search(args SearchArgs) SearchResults {
 
 			results = append(results, SearchResult{
 				ID:       id,
-				Metadata: metadata,
+				Metadata: append([]byte{}, metadata...),
 			})
 
 			if args.Limit > 0 && len(results) >= args.Limit {
